@@ -153,19 +153,19 @@ def main():
     for rel, text in job.get('appends', {}).items():
         with open(os.path.join(work, rel), 'a', encoding='utf-8') as f:
             f.write(text)
-    # inventories of the custom template directories (what a loader can see)
-    inventories = {}
-    for d in job.get('inventory', []):
-        inv = []
-        for dirpath, _, filenames in os.walk(os.path.join(work, d)):
-            for n in filenames:
-                inv.append(os.path.relpath(os.path.join(dirpath, n), os.path.join(work, d)))
-        inventories[d] = sorted(inv)
-
     for d in job.get('mkdirs', []):
         os.makedirs(os.path.join(work, d), exist_ok=True)
     for link, target in job.get('symlinks', {}).items():
         os.symlink(target, os.path.join(work, link))
+    # inventories of the custom template directories: what a loader can SERVE (it opens <dir>/<name>, so linked
+    # sub-directories are followed)
+    inventories = {}
+    for d in job.get('inventory', []):
+        inv = []
+        for dirpath, _, filenames in os.walk(os.path.join(work, d), followlinks=True):
+            for n in filenames:
+                inv.append(os.path.relpath(os.path.join(dirpath, n), os.path.join(work, d)))
+        inventories[d] = sorted(inv)
     outdir = job.get('outdir', 'out')      # as spelled on the command line, relative to `work`
 
     def real_rel(p):
